@@ -360,6 +360,11 @@ impl BinaryMatrix for SparseBinaryMatrix {
             let mut src = self.dense_elements.len();
             self.dense_elements.extend(vec![0; self.height]);
             let mut dest = self.dense_elements.len();
+            if src == 0 {
+                // There were no dense words yet (dense hint of zero, or all dense columns removed
+                // by resize()), so the new words are already in place
+                dest = 0;
+            }
             // Re-space the elements, so that each row has an empty word
             while src > 0 {
                 src -= 1;
